@@ -525,3 +525,28 @@ def witness_search(tier, seed):
             if got != exp:
                 return dict(input=dict(a=repr(a), b=repr(b), op=f.__name__), detail=f"got {got!r}, position order says {exp!r}")
     return None
+
+
+# thorough tier: CPython cross-check of the encoder on the note comparisons (tuple comparison, total_ordering helpers)
+def _thorough_bounded():
+    from pyvc.xcheck import EncoderCrossCheck
+    import operator
+
+    def cases(tier):
+        n = N()
+        from simfile.timing import Beat
+        T = n.NoteType
+        notes = [n.Note(Beat(b), c, t, p, k) for b, c, t, p, k in ((0, 0, T.TAP, 0, None), (0, 1, T.MINE, 0, None), (1, 0, T.TAP, 0, 3), (0, 0, T.HOLD_HEAD, 1, None),
+                                                                  (0, 0, T.TAP, 0, 7), (Beat(1, 3), 2, T.TAIL, 0, None))]
+        for a in notes:
+            for b in notes:
+                yield (a, b)
+
+    out = []
+    for d, f in (("__lt__", operator.lt), ("__le__", operator.le), ("__gt__", operator.gt), ("__ge__", operator.ge)):
+        if _defined(d):
+            out.append(EncoderCrossCheck(f"Note.{d}", f"simfile.notes.Note.{d}", lambda: N().Note, (lambda a, b, f=f: f(a, b)), cases))
+    return out
+
+
+THOROUGH_BOUNDED = _thorough_bounded()
